@@ -19,7 +19,7 @@ from hsim.core.runner import RunResult
 
 PROPERTY = "C04"
 CHUNK = {"quick": 400, "thorough": 1000}
-PROBES = ["far_end_acks_an_injected_packet", "eviction", "back_with_later_injection", "ooo_below_injection", "retransmit_after_injection",
+PROBES = ["whole_session_mode", "far_end_acks_an_injected_packet", "eviction", "back_with_later_injection", "ooo_below_injection", "retransmit_after_injection",
           "skip_ahead", "inject_burst", "first_copy_is_a_resend", "resent_flag_on_retransmission"]
 COMPONENTS = {
     "real": ["hippolyzer.lib.proxy.circuit.ProxiedCircuit.send/prepare_message",
@@ -40,8 +40,41 @@ EP = ("10.9.0.2", 9000)
 PROXY_IN = ("10.0.0.1", 12000)
 
 
+def gen_session_plan(rng: random.Random, big: bool) -> dict:
+    """The same translation seen from outside: a whole proxied session (real SOCKS association, session, circuit
+    opened by UseCircuitCode) with injections, where the viewer also *retransmits* its UseCircuitCode - the one packet
+    whose handling touches the circuit itself - and the wire IDs are judged by the ID laws on the datagrams."""
+    from hsim.props.udp_common import rand_fate
+    cfg = {"deferred": rng.random() < 0.8, "same_ip": False, "n_viewers": 1, "regions": [[0]], "builtin_addons": False,
+           "p_delay": rng.choice([0.0, 0.3]), "p_dup": rng.choice([0.0, 0.1]), "p_garbage": 0.0, "p_corrupt": 0.0,
+           "tail": 1.0}
+    steps = [{"at": 0.05, "op": "ucc", "v": 0, "r": 0}]
+    t = 0.1
+    for _ in range(rng.randint(4, 40 if big else 24)):
+        t = round(t + rng.choice([0.0, 0.001, 0.01, 0.05]), 4)
+        x = rng.random()
+        if x < 0.2:
+            steps.append({"at": t, "op": "inject", "v": 0, "r": 0, "dir": rng.choice(["out", "in"]),
+                          "reliable": rng.random() < 0.3})
+        elif x < 0.3:
+            steps.append({"at": t, "op": "ucc", "v": 0, "r": 0, "again": True})
+        elif x < 0.45:
+            steps.append({"at": t, "op": rng.choice(["vsend", "ssend"]), "v": 0, "r": 0, "name": "x", "mseed": 0,
+                          "retransmit_of": rng.randrange(50), "acks": rng.choice([0, 0, 1]),
+                          "fate": rand_fate(rng, cfg["p_delay"], cfg["p_dup"])})
+        else:
+            inbound = rng.random() < 0.5
+            steps.append({"at": t, "op": "ssend" if inbound else "vsend", "v": 0, "r": 0,
+                          "name": "ChatFromSimulator" if inbound else "ChatFromViewer", "text": "t", "mseed": 1,
+                          "reliable": rng.random() < 0.5, "zerocoded": rng.random() < 0.3,
+                          "acks": rng.choice([0, 0, 1, 2]), "fate": rand_fate(rng, cfg["p_delay"], cfg["p_dup"])})
+    return {"property": PROPERTY, "mode": "session", "cfg": cfg, "steps": steps}
+
+
 def gen_plan(rng: random.Random, tier: str) -> dict:
     big = tier == "thorough"
+    if rng.random() < 0.12:
+        return gen_session_plan(rng, big)
     r = rng.random()
     if r < 0.08:
         maxlen = 10000
@@ -93,6 +126,13 @@ def gen_plan(rng: random.Random, tier: str) -> dict:
 
 
 def simplify_step(step):
+    if step["op"] not in ("ep", "inject", "revack") or "v" in step:
+        if step.get("fate"):
+            yield {**step, "fate": {}}
+        for k in ("acks", "zerocoded", "reliable"):
+            if step.get(k):
+                yield {k_: v_ for k_, v_ in step.items() if k_ != k}
+        return
     if step["op"] == "ep" and step.get("fate"):
         yield {**step, "fate": {}}
         f = dict(step["fate"])
@@ -109,6 +149,8 @@ def simplify_step(step):
 
 
 def simplify_plan(plan):
+    if plan.get("mode") == "session":
+        return
     if plan["direction"] != "OUT":
         yield {**plan, "direction": "OUT"}
     # renumber times to 0,1,2.. keeping order
@@ -129,6 +171,11 @@ class _WireTransport:
 
 
 def run_plan(plan: dict) -> RunResult:
+    if plan.get("mode") == "session":
+        from hsim.props import c06
+        res = c06.run_world(plan, PROPERTY, False)
+        res.probe("whole_session_mode")
+        return res
     from hippolyzer.lib.base.message.message import Block, Message
     from hippolyzer.lib.base.network.transport import Direction
     from hippolyzer.lib.proxy.circuit import InjectionTracker, ProxiedCircuit
